@@ -4,7 +4,7 @@ import PnVerif.Spec.InBounds
   C15 correspondence driver.  One request per line on stdin, one answer per line on stdout.
 
     K strict classic isrec isread api nd shape.. S|SN start.. C|CN count.. T|TN stride..
-        -> <checkSCS c64> <checkSCS exact> <InBounds 0|1>
+        -> <checkSCS c64> <checkSCS exact> <InBounds 0|1> <checkSCS divForm (repaired check_EEDGE)>
     A strict classic isrec isread api begin xsz recsize numrecs nd shape.. S|SN.. C|CN.. T|TN..
         -> <checkSCS c64> <numrecs after a put> <n> <off_1> .. <off_n>      (offsets only when accepted)
 
@@ -69,7 +69,7 @@ def doK (strict classic isrec isread api : String) (l : List String) : String :=
   | some r =>
     let c := mkCtx strict classic isrec isread api
     let inb : Nat := if decide (InBounds c r) then 1 else 0
-    s!"{checkSCS c64 c r} {checkSCS exact c r} {inb}"
+    s!"{checkSCS c64 c r} {checkSCS exact c r} {inb} {checkSCS divForm c r}"
 
 def doA (strict classic isrec isread api : String) (l : List String) : String :=
   match l with
